@@ -223,36 +223,35 @@ func C07(c *Ctx) {
 		r.Unknown("C07.delete-unusable", an, "GetCookie", "-", "Authenticate does not read the cookie")
 	}
 
-	// (4) middleware only when nobody is logged in
-	if mw := c.P.FuncOpt("ab/remember.Middleware"); mw != nil {
+	// (4) middleware only when nobody is logged in: every request-time caller of Authenticate
+	{
 		n := 0
-		var walk func(f *ssa.Function)
-		walk = func(f *ssa.Function) {
-			for _, call := range Calls(f) {
-				if StaticCallee(call) == au {
-					n++
-					ok := HasFact(FactsAtInstr(call.(ssa.Instruction)), func(fa Fact) bool {
-						rel := fa.Rel()
-						x := StrLenValue(rel.X)
-						if x == nil {
-							x = rel.X
-						}
-						if !fa.SaysEmpty(x) {
-							return false
-						}
-						ic, _ := CallOf(x)
-						return ic != nil && Callee(ic) == fnCurrentUserID
-					})
-					r.Check(ok, "C07.middleware", FuncName(f), "Authenticate", posf(c, call), "only when CurrentUserID is empty", "the middleware runs cookie authentication although a user may be logged in: the cookie's account would replace the session's")
-				}
+		for _, f := range c.P.Funcs {
+			if pkgOf(f) != "ab/remember" {
+				continue
 			}
-			for _, a := range f.AnonFuncs {
-				walk(a)
+			for _, call := range Calls(f) {
+				if StaticCallee(call) != au {
+					continue
+				}
+				n++
+				ok := HasFact(FactsAtInstr(call.(ssa.Instruction)), func(fa Fact) bool {
+					rel := fa.Rel()
+					x := StrLenValue(rel.X)
+					if x == nil {
+						x = rel.X
+					}
+					if !fa.SaysEmpty(x) {
+						return false
+					}
+					ic, _ := CallOf(x)
+					return ic != nil && Callee(ic) == fnCurrentUserID
+				})
+				r.Check(ok, "C07.middleware", "ab/remember.middleware", "Authenticate", posf(c, call), "only when CurrentUserID is empty", "the middleware runs cookie authentication although a user may be logged in: the cookie's account would replace the session's")
 			}
 		}
-		walk(mw)
 		if n == 0 {
-			r.Unknown("C07.middleware", FuncName(mw), "Authenticate", "-", "middleware does not call Authenticate")
+			r.Unknown("C07.middleware", "ab/remember", "Authenticate", "-", "no middleware calls Authenticate")
 		}
 	}
 
